@@ -76,6 +76,7 @@ type interpreter struct {
 	bigSlices    [][]value
 	hashStreams  map[*value]*[]value
 	hashCalls    []hashCall
+	shaCalls     []ufCall
 	divHints     map[*Term]divHint
 	model        map[string]uint64
 	modelOK      bool
